@@ -667,6 +667,10 @@ def make_trace(path, cases, by, kind):
                 if e["e"] == "Write":
                     e = dict(e)
                     e["tok"] = lex(e["t"])
+                elif e["e"] == "Text":
+                    e = dict(e)
+                    e["tok"] = lex(e["t"])
+                    e["j"] = c.get("judge", "total")
                 f.write(json.dumps(e, separators=(",", ":")) + "\n")
                 n += 1
         f.write('{"e":"Fin"}\n')
@@ -677,7 +681,15 @@ def validate(sc, path, timeout=1500):
     r = vlib.run_tlc("DatumTrace.tla", "DatumTrace.cfg", sc.path, env={"TRACE": path}, workers=1, timeout=timeout, heap="3g")
     rej = []
     summ = None
+    r.details = {}
+    r.textcls = {}
     for line in r.out.splitlines():
+        m = re.match(r'<<"C08DETAIL", (\d+), "([^"]*)", "([^"]*)", (\d+), (\d+)>>', line)
+        if m:
+            r.details[(int(m.group(1)), m.group(2), m.group(3))] = (int(m.group(4)), int(m.group(5)))
+        m = re.match(r'<<"C08TEXT", (\d+), "([^"]*)", "([^"]*)", "([^"]*)">>', line)
+        if m:
+            r.textcls.setdefault(int(m.group(1)), {"j": m.group(2)})[m.group(3)] = m.group(4)
         m = re.match(r'<<"C08REJECT", (\d+), "([^"]*)", "([^"]*)", "([^"]*)">>', line)
         if m:
             t = (int(m.group(1)), m.group(2), m.group(3), m.group(4))
@@ -749,7 +761,11 @@ def campaign(chk, sc, build, cases, kind, label, jobs_drv=8, jobs_tlc=6):
         return grp, path, r, rej, summ, consumed
     rejs = []
     tot = [0, 0, 0, 0, 0]
+    details, textcls = {}, {}
+    chk.c08_details, chk.c08_textcls = details, textcls
     for grp, path, r, rej, summ, consumed in vlib.parallel(val, list(enumerate(groups)), jobs=jobs_tlc):
+        details.update(r.details)
+        textcls.update(r.textcls)
         if not consumed:
             raise Broken("DatumTrace did not consume trace %s: %s\n%s" % (path, r.summary(), r.out[-2500:]))
         if summ[4] != len(rej):
@@ -816,25 +832,61 @@ def report_rejections(chk, sc, build, cases, rejs, by, kind):
 # ------------------------------------------------------------------------------------------------
 # texts for the reader-agreement part
 # ------------------------------------------------------------------------------------------------
+VALID_TEXTS = [
+    # numbers with prefixes
+    "#e1.5", "#i1/2", "#x1F", "#b101", "#o17", "#d10", "#x-1f", "#e1e3", "#i5", "#xAbC", "#e#x10", "#x#e10", "#i#b11", "#X1f", "#E1.5", "#I5", "1e3", "1E3", "-1.5e-3", ".5", "+.5", "-.5", "5.",
+    "1e400", "-1e400", "1e-400", "+inf.0", "-inf.0", "+nan.0", "1+2i", "1-2i", "-i", "+i", "+2i", "1/2+3/4i", "1.5+2.5i", "1@0", "123456789012345678901234567890", "-123456789012345678901234567890",
+    "1/2", "-1/2", "2/4", "10/5", "+5", "-0", "-0.0", "0.0", "00012", "#e-0.5", "#i-1/3", "#e1e-3", "#b-101/11", "#o-17", "#x10/F", "#e1.25e2", "#d1.5", "#d#e1.5", "#e#d1.5",
+    # booleans, empty things, abbreviations
+    "#t", "#f", "#true", "#false", "()", "#()", "#u8()", "#u8(0 1 255)", "#u8(#xFF #b1 #o7)", "'a", "`a", ",a", ",@a", "'()", "''a", "'(a . b)", "`(a ,b ,@c)", "'#(a)", "'\"s\"", "' a",
+    # comments and white space
+    "; c\na", "#;a b", "#;(a b) c", "#|x|#a", "#|a#|b|#c|#d", " a ", "\ta\n", "(a #;b)", "(a #;b . c)", "(a . #;b c)", "(a ;x\n b)", "(a #|x|# b)", "", " ", ";", "; only a comment", "#;a", "#|x|#", "a;b",
+    "#;#;a b c", "(#;a)", "#(#;a)", "#;()a",
+    # datum labels
+    "#0=a", "(#0=a #0#)", "#0=(a . #0#)", "#1=(a #1#)", "#10=(a #10#)", "(#0=(a) #1=(b) #0# #1#)", "#0=#(#0#)", "#0=(#1=(#0# #1#))", "(#0=\"s\" #0#)", "(#0=#u8(1) #0#)", "#0=(a b . #0#)",
+    "(#0=(a) . #0#)", "#(#0=(a) #0# #0#)", "#0=(#0# . #0#)", "(#1=(a) #0=(b) #1# #0#)", "'#0=(a . #0#)", "(#0=(a) #;#0# #0#)",
+    # lists and dots
+    "(1 .5)", "(1 . 5)", "(a . b)", "(a b . c)", "(a . (b . (c . ())))", "(a .b)", "(1 .a)", "(a.b)", "a.b", "...", "(a ... b)", "(a . ...)", "(... . a)", "((a))", "(() ())", "(()())", "(a(b)c)", "(a\"b\"c)",
+    "#(a #(b) ())", "(a . b )", "( a . b)", "(a .\nb)", "(a\n.\nb)",
+    # strings
+    "\"a\\\nb\"", "\"a\\  \n  b\"", "\"\\a\\b\\t\\n\\r\\\"\\\\\"", "\"\\x41;\"", "\"\\x3bb;\"", "\"\\x0;\"", "\"\\x00041;\"", "\"\\x10FFFF;\"", "\"a|b\"", "\"\\|\"", "\"\\t\\t\"", "\"\"",
+    "\"\u03bb\"", "\"\U0001F600\"", "\"a\nb\"", "\"tab\there\"", "\"a;b\"", "\"(\"", "\"#|\"",
+    # symbols
+    "abc", "ABC", "|ABC|", "|a b|", "||", "|a\\x41;b|", "|\\x3bb;|", "|\\||", "|a\\tb|", "|a\\nb|", "|\u03bb|", "\u03bb", "a\u03bb", "!$%&*/:<=>?^_~", "+", "-", "->", "-a", "+a", "+.a", "-..", "..",
+    "a1", "a+b", "a-b", "a@b", "<=?", "set!", "list->vector", "+soup+", "V17a", "|two words|", "|two\\x20;words|", "|\\x41;|", "the-word-recursion-has-many-meanings",
+    # characters
+    "#\\a", "#\\A", "#\\space", "#\\newline", "#\\x41", "#\\x", "#\\(", "#\\)", "#\\;", "#\\\"", "#\\ ", "#\\\u03bb", "#\\\U00010000", "#\\\U0010FFFF", "#\\\u00e9", "#\\\uffff", "#\\null", "#\\alarm", "#\\backspace", "#\\delete",
+    "#\\escape", "#\\return", "#\\tab", "#\\x0", "#\\x3bb", "#\\x10FFFF", "#\\x03BB", "#\\#", "#\\'", "#\\|", "#\\\\", "#\\1", "#\\x1", "(#\\a #\\b)", "(#\\a)", "#(#\\()", "#\\t", "#\\n", "#\\s",
+]
+MALFORMED_TEXTS = [
+    "\"\\X41;\"", "#\\X41", "#T", "#F", "(#t#f)", "|a|b", "a|b|", "|a||b|", 
+    "#1#", "(#0# . #0=a)", "#0=#0#", "#0=(a . #1#)", "(#0=a #0=b)", "(a . b c)", "(. a)", "(a .)", "( . )", ")", "#(a . b)", "#u8(256)", "#u8(-1)", "#u8(a)", "#u8(1 . 2)", "#u8(1.0)", "\"\\q\"", "\"\\x41\"",
+    "\"\\x;\"", "\"\\xD800;\"", "\"\\x110000;\"", "#\\x110000", "#\\xD800", "#\\foo", "1/0", "#b102", "#o8", "#xg", "#tr", "#\\nul", "#\\altmode", "#\\SPACE", "1_000", "1,000", "1'000", "a\\ b", "\\a",
+    "a\\", "[a]", "{a}", "[", "]", "{", "}", "#\\", "#", "#;", "#|", "#z", "#!", "#!eof", "#!fold-case A", "#!unknown", "a#|x|#", "#e", "#x", "#e1/0", "#i", "1e", "1e+", "1/", "+-1", "--1", "1+", "1++2i", "1+2", "i", "1i",
+    "#0", "#0=", "#=a", "##", "#0=)", "(#0=)", "'", "`", ",", ",@", "(')", "#(')", "(a . 'b c)", "(a . . b)", "(a .. b)", "#u8", "#u8 (1)", "# (a)", "#u9(1)", "#vu8(1)", "#f32(1.0)", "#s8(1)", "#c64(1)",
+    "|a", "\"a", "(a", "#(a", "#u8(1", "(a . ", "(a . b", "#0=(a", "'(", "#;(", "#|x", "#;", "\"\\", "|\\", "(\"", "((((((((((", "#\\x110000000000000000000",
+    "\x00", "a\x00b", "(a\x00b)", "\x7f", "\x01", "\x0c a", "\u00a0a", "\u2028a", "\ufeffa", "(\x0ba)",
+]
+
+
 def gen_texts(rng, written, thorough):
-    """(cls, code points): texts produced by the writers, mutations of them, number syntax with prefixes.
-       Only classes whose outcome the property fixes are generated (see notes/c08-findings.md)."""
+    """(class, judgement, code points).  judgement "agree": both readers must produce the same outcome (texts from
+       the writers, valid R7RS texts); "truncated": TLC decides whether the prefix is an incomplete datum (both readers
+       must signal an error) or a complete one (agree); "total": R7RS leaves the outcome open, only termination is required."""
     out = []
     texts = sorted(set(tuple(t) for t in written if 0 < len(t) <= 300))
     rng.shuffle(texts)
     n = 3000 if thorough else 500
     for t in texts[:n]:
-        t = list(t)
-        out.append(("written", t))
+        out.append(("written", "agree", list(t)))
     for t in texts[:n]:
         t = list(t)
+        out.append(("truncated", "truncated", t[:rng.randrange(len(t))]))
         c = rng.random()
         if c < 0.3:
-            m, cls = t[:rng.randrange(len(t))], "mut-truncate"
-        elif c < 0.5:
             j = rng.randrange(len(t))
             m, cls = t[:j] + t[j + 1:], "mut-delete"
-        elif c < 0.7:
+        elif c < 0.6:
             j = rng.randrange(len(t) + 1)
             m, cls = t[:j] + [rng.choice(S("()#.\"|\\'`, 0123456789=ei+-x;"))] + t[j:], "mut-insert"
         elif c < 0.85:
@@ -843,38 +895,51 @@ def gen_texts(rng, written, thorough):
         else:
             j, k = sorted((rng.randrange(len(t)), rng.randrange(len(t))))
             m, cls = t[:j] + t[k:] + t[j:k], "mut-swap"
-        out.append((cls, m))
-    fixed = ["#1#", "(#0# . #0=a)", "#0=#0#", "#0=(a . #1#)", "(#0=a #0=b)", "(a . b c)", "(. a)", "(a .)", "( . )", ")", "(", "#(", "#(a . b)", "\"abc", "|abc", "#\\", "#",
-             "(a b", "((((((((((", "))))", "#u8(256)", "#u8(-1)", "#u8(a)", "#u8(1 . 2)", "\"\\q\"", "\"\\x41\"", "\"\\x;\"", "\"\\xD800;\"", "\"\\x110000;\"", "#\\x110000", "#\\xD800", "#\\foo",
-             "1/0", "#e1.5", "#i1/2", "#x1F", "#b101", "#o17", "#d10", "#x-1f", "#e1e3", "#i5", "#xAbC", "#b102", "#o8", "#xg", "#e#x10", "#x#e10", "#i#b11", "1e3", "1E3", "-1.5e-3", ".5", "+.5", "5.",
-             "1e400", "-1e400", "1e-400", "+inf.0", "-inf.0", "+nan.0", "1+2i", "-i", "+i", "1@0", "#t", "#f", "#true", "#false", "#tr", "#T", "#F", "()", "#()", "#u8()", "'a", "`a", ",a", ",@a", "'()", "''a",
-             "; c\na", "#;a b", "#;(a b) c", "#|x|#a", "#|a#|b|#c|#d", "a;b", "a#|x|#", " a ", "\ta\n", "", " ", ";", "#;", "#|", "#;a", "(a #;b)", "(a . #;b c)", "(a #;b . c)", "#0=a", "(#0=a #0#)", "#0=(a . #0#)",
-             "#1=(a #1#)", "#10=(a #10#)", "(#0=(a) #1=(b) #0# #1#)", "#0=#(#0#)", "#0=(#1=(#0# #1#))", "(1 .5)", "(1 . 5)", "(1 .a)", "(a.b)", "(a . b)", "(a .b)", "a.b", "...", "(a ... b)", "\"a\\\nb\"", "\"a\\  \n  b\"",
-             "\"\\a\\b\\t\\n\\r\\\"\\\\\"", "|a\\x41;b|", "|\\|\\\\|", "\"\\x41;\"", "#\\a", "#\\A", "#\\space", "#\\newline", "#\\x41", "#\\x", "#\\(", "#\\)", "#\\;", "#\\\"", "#\\ ", "#\\\u03bb", "#\\\U00010000",
-             "#\\nul", "#\\null", "#\\alarm", "#\\backspace", "#\\delete", "#\\escape", "#\\return", "#\\tab", "#\\altmode", "#\\SPACE", "123456789012345678901234567890", "-123456789012345678901234567890",
-             "1/2", "-1/2", "2/4", "10/5", "1/-2", "+5", "-0", "-0.0", "00012", "1_000", "1,000", "1'000", "abc", "ABC", "|ABC|", "a\\ b", "\\a", "a\\", "[a]", "{a}", "[", "]", "{", "}"]
-    for s in fixed:
-        out.append(("fixed", S(s)))
-    for i in range(400 if thorough else 100):          # deep nesting and long input
-        pass
-    for d in (100, 1000, 10000):
-        out.append(("deep-open", S("(" * d)))
-        out.append(("deep-nest", S("(" * d + "a" + ")" * d)))
-        out.append(("deep-vector", S("#(" * d + ")" * d)))
-        out.append(("deep-quote", S("'" * d + "a")))
-    # number syntax, generated
-    for i in range(1500 if thorough else 300):
-        pre = rng.choice(["", "", "", "#x", "#b", "#o", "#d", "#e", "#i", "#X", "#E", "#I", "#e#x", "#x#e", "#i#d"])
-        dig = {"#x": "0123456789abcdefABCDEF", "#b": "01", "#o": "01234567"}.get(pre[:2].lower() if pre[:2].lower() in ("#x", "#b", "#o") else pre[-2:].lower(), "0123456789")
-        body = rng.choice(["", "+", "-"]) + "".join(rng.choice(dig) for _ in range(rng.randint(1, 6)))
-        c = rng.random()
-        if c < 0.2:
-            body += "/" + "".join(rng.choice(dig) for _ in range(rng.randint(1, 4)))
-        elif c < 0.4 and dig == "0123456789":
-            body += "." + "".join(rng.choice(dig) for _ in range(rng.randint(0, 4)))
-        elif c < 0.5 and dig == "0123456789":
-            body += "e" + rng.choice(["", "+", "-"]) + str(rng.randint(0, 30))
-        out.append(("number-syntax", S(pre + body)))
+        out.append((cls, "total", m))
+    for s in VALID_TEXTS:
+        out.append(("valid", "agree", S(s)))
+        if len(s) > 1:
+            out.append(("truncated", "truncated", S(s)[:rng.randrange(1, len(s))]))
+    for s in MALFORMED_TEXTS:
+        out.append(("malformed", "total", S(s)))
+    for d in (100, 1000, 10000) + ((100000,) if thorough else ()):
+        out.append(("deep-open", "truncated", S("(" * d)))
+        out.append(("deep-vector-open", "truncated", S("#(" * d)))
+        out.append(("deep-nest", "agree", S("(" * d + "a" + ")" * d)))
+        out.append(("deep-vector", "agree", S("#(" * d + ")" * d)))
+        out.append(("deep-quote", "agree", S("'" * d + "a")))
+        out.append(("deep-close", "total", S(")" * d)))
+        out.append(("long-list", "agree", S("(" + "a " * d + ")")))
+        out.append(("long-string", "agree", S("\"" + "ab\\n" * d + "\"")))
+        out.append(("long-symbol", "agree", S("x" * d)))
+        out.append(("long-integer", "agree", S("1" + "0" * d)))
+    # number syntax, generated from the R7RS grammar (valid by construction)
+    for i in range(2000 if thorough else 400):
+        radix = rng.choice(["", "", "", "", "#x", "#b", "#o", "#d"])
+        exact = rng.choice(["", "", "", "#e", "#i"])
+        pre = rng.choice([radix + exact, exact + radix])
+        if rng.random() < 0.2:
+            pre = pre.upper()
+        dig = {"#x": "0123456789abcdefABCDEF", "#b": "01", "#o": "01234567"}.get(radix, "0123456789")
+
+        def ureal():
+            body = "".join(rng.choice(dig) for _ in range(rng.randint(1, rng.choice([3, 6, 25]))))
+            c = rng.random()
+            if c < 0.2:
+                body += "/" + rng.choice(dig.replace("0", "") or "1") + "".join(rng.choice(dig) for _ in range(rng.randint(0, 4)))
+            elif c < 0.45 and radix in ("", "#d"):
+                body += "." + "".join(rng.choice(dig) for _ in range(rng.randint(0, 6)))
+                if rng.random() < 0.3:
+                    body += "e" + rng.choice(["", "+", "-"]) + str(rng.randint(0, 30))
+            elif c < 0.55 and radix in ("", "#d"):
+                body += "e" + rng.choice(["", "+", "-"]) + str(rng.randint(0, 30))
+            return body
+        txt = pre + rng.choice(["", "+", "-"]) + ureal()
+        cls = "number-real"
+        if rng.random() < 0.15:
+            txt += rng.choice(["+", "-"]) + rng.choice([ureal(), ""]) + "i"
+            cls = "number-complex"
+        out.append((cls + ("-prefixed" if pre else ""), "agree", S(txt)))
     return out
 
 
@@ -937,11 +1002,11 @@ def run():
         # ---------------- texts fed to both readers
         written = [e["t"] for c in cases for e in by.get(c["id"], []) if e["e"] == "Write" and e.get("ok") == 1 and c["id"] not in rejected_cases]
         tcases = []
-        for cls, t in gen_texts(rng, written, thorough):
+        for cls, judge, t in gen_texts(rng, written, thorough):
             if not all(scalar(x) for x in t):
                 continue
             cid = len(tcases) + 1
-            tcases.append({"id": cid, "cls": "text-" + cls, "t": t, "textline": "(%d %s)" % (cid, " ".join(str(x) for x in t)),
+            tcases.append({"id": cid, "cls": "text-" + cls, "judge": judge, "t": t, "textline": "(%d %s)" % (cid, " ".join(str(x) for x in t)),
                            "note": "".join(chr(x) for x in t)[:80]})
         trejs, ttot, tby = campaign(chk, sc, build, tcases, "txt", "txt", jobs_drv=8, jobs_tlc=6)
         tkeys, tconf = report_rejections(chk, sc, build, tcases, trejs, tby, "txt")
